@@ -49,7 +49,7 @@ ChainMat(ch) ==
         IF \E x \in E : x[1] = i /\ x[2] = j
         THEN LET x == CHOOSE x \in E : x[1] = i /\ x[2] = j IN x[3] * 2 ^ x[4] ELSE 0)
 
-GadgetOK(G) == /\ G.m \in 2..60
+GadgetOK(G) == /\ G.m \in 2..260
                /\ IsSquare(G.m, G.A)
                /\ \A i, j \in 1..G.m : G.A[i][j] \in 0..3
                /\ \A i \in 1..G.m : G.A[i][i] = 0
